@@ -101,7 +101,7 @@ partial def treeCheck (src : List UInt8) (j : Json) : Option String :=
       | "id" => want "p" (name (g "n"))
       | "str" => want "p" ["\"", "'"]
       | "int" => want "p" digits
-      | "float" => want "p" digits
+      | "float" => want "p" (digits ++ ["i", "n"])   -- also the special numbers `inf`, `nan` (any letter case)
       | "bool" => want "p" ["true", "false"]
       | "nil" => want "p" ["nil", "null"]
       | "list" => want "lb" ["["] <|> want "rb" ["]"]
